@@ -31,6 +31,10 @@ def narrow(draw, X, y, params):
         lo, hi = gen.NARROW_RANGES[draw(st.sampled_from(["int8", "uint8"]))]
         y = gen.rng_of(draw).integers(lo, hi + 1, size=np.shape(y)).astype(float)
     params["_dtypes"] = [gen.narrow_dtype(X), None if y is None else gen.narrow_dtype(y)]
+    if "recompute_every" in params:
+        # the CUR family treats residual norms below the documented absolute `tolerance` as zero: with entries up to 1e3 the rounding
+        # noise of an orthogonalised column (~1e-10) must stay below it (DESIGN 3.x, same precondition as for the other kinds)
+        params["tolerance"] = 1e-8
     return y
 
 
